@@ -322,6 +322,29 @@ def run(ctx):
                 check_line(line[:-1] + b'+', obs, nl)
                 n += 3
                 obs.count('enum:block_boundary')
+    # an otherwise valid header behind leading whitespace is not a header,
+    # however much whitespace it is (every count up to 3 read-ahead blocks,
+    # alone and after runs of blank lines that make the total a multiple of
+    # the block size)
+    if ctx.index == 4 % ctx.n:
+        cands = []
+        for k in range(1, 300):
+            cands.append(b' ' * k + b'#.change: a=b')
+            if k % 7 == 0:
+                cands.append(b'\t' * k + b'#.change:')
+        for blanks in (1, 2, 40, 95, 96, 97, 191):
+            for total in (96, 192, 288):
+                if total > blanks:
+                    cands.append(b'\n' * blanks + b' ' * (total - blanks) +
+                                 b'#.change: a=b')
+                    cands.append(b'\r\n' * (blanks // 2) +
+                                 b' ' * (total - 2 * (blanks // 2)) +
+                                 b'#.change:')
+        for line in cands:
+            check_line(line, obs)
+            check_line(line, obs, follow=b'#..file:\n#...meta: length=3\n{}\n')
+            n += 2
+            obs.count('enum:indented_header')
     # non-ASCII look-alikes of grammar characters
     for j, line in enumerate(confusable_lines()):
         if ctx.mine(j):
